@@ -333,6 +333,30 @@ def rule_quant_not_stripped(db: ProgramDB) -> List[Instance]:
                             "the quantifier is handed on next to its selected variable" if flows else
                             f"`{unparse(strips[0])}` goes on with the selected variable of a quantified sub-query and drops the sub-query: its conditions no longer "
                             f"restrict anything - flatten(an(entity(b.items, b.size > 1))) unnests the items of every b", line=strip_line))
+    # the expression form of the same thing: `x._var_ if isinstance(x, ResultQuantifier) else x` (in a comprehension over arguments)
+    for fn in sorted(db.all_functions(), key=lambda f: f.qualname):
+        if fn.cls is not None and (fn.cls is rq or fn.cls.is_subclass_of(rq)):
+            continue
+        for e in own_nodes(fn.node):
+            if not isinstance(e, ast.IfExp):
+                continue
+            t, pos, neg = e.test, e.body, e.orelse
+            while isinstance(t, ast.UnaryOp) and isinstance(t.op, ast.Not):
+                t, pos, neg = t.operand, neg, pos
+            if not (isinstance(t, ast.Call) and dotted(t.func) == "isinstance" and len(t.args) == 2 and isinstance(t.args[0], ast.Name)
+                    and {unparse(k) for k in (t.args[1].elts if isinstance(t.args[1], ast.Tuple) else [t.args[1]])} & qnames):
+                continue
+            x = t.args[0].id
+            strip = [v for v in ast.walk(pos) if isinstance(v, ast.Attribute) and isinstance(v.value, ast.Name) and v.value.id == x
+                     and v.attr in ("_var_", "selected_variable", "_child_")]
+            if not strip:
+                continue
+            n_arms += 1
+            kept = any(isinstance(v, ast.Name) and v.id == x and not any(v is s_.value for s_ in strip) for v in ast.walk(pos))
+            out.append(inst("QUANT-NOT-STRIPPED", HOLDS if kept else VIOLATION, fn, f"{fn.short}[{x}: quantifier replaced by its variable]",
+                            "the quantifier is handed on next to its selected variable" if kept else
+                            f"`{unparse(e)[:90]}` goes on with the selected variable of a quantified sub-query and drops the sub-query: its conditions no longer "
+                            f"restrict anything - Order(customer=an(entity(c, c.vip))) is concluded for every customer", line=e.lineno))
     if n_arms == 0:
         raise AnalysisError("no place that replaces a quantifier by its selected variable found (the selection of a descriptor was confirmed by reading)")
     return out
